@@ -61,6 +61,7 @@ func c(op string) call                  { return call{op: op} }
 func cm(op string, m os.FileMode) call  { return call{op: op, mode: m} }
 func ct(op string, ts int) call         { return call{op: op, ts: ts} }
 func cp(op string, p string) call       { return call{op: op, path: p} }
+func wp(op string, reg int) call        { return call{op: op, reg: reg, path: "/d/f"} } // path-based write: Lookup first
 func isWrite(op string) bool            { return op == "write" || op == "writens" || op == "wflush" }
 func letter(thr, idx int) byte          { return byte('A' + thr*3 + idx) }
 func (cl call) data(thr, idx int) string {
@@ -300,8 +301,28 @@ func (x *exec) flushedRootContent() (string, error) {
 	return x.dagFile(nd, "d", x.finalName())
 }
 
+// target is the File a call works on: the handle resolved during setup, or (path-based calls) a fresh Lookup.
+func (x *exec) target(cl call) (*mfs.File, error) {
+	if cl.path == "" {
+		return x.fi, nil
+	}
+	n, err := mfs.Lookup(x.rt, cl.path)
+	if err != nil {
+		return nil, fmt.Errorf("lookup: %w", err)
+	}
+	fi, ok := n.(*mfs.File)
+	if !ok {
+		return nil, fmt.Errorf("%s is not a file", cl.path)
+	}
+	return fi, nil
+}
+
 func (x *exec) writeCall(t, i int, cl call) (acked bool, err error) {
-	fd, err := x.fi.Open(x.ctx, mfs.Flags{Write: true, Sync: cl.op != "writens"})
+	fi, err := x.target(cl)
+	if err != nil {
+		return false, err
+	}
+	fd, err := fi.Open(x.ctx, mfs.Flags{Write: true, Sync: cl.op != "writens"})
 	if err != nil {
 		return false, fmt.Errorf("open: %w", err)
 	}
@@ -362,7 +383,10 @@ func (x *exec) do(t, i int, cl call) {
 	case "write", "writens", "wflush":
 		_, err = x.writeCall(t, i, cl)
 	case "read":
-		r.data, err = x.readFile(x.fi)
+		var fi *mfs.File
+		if fi, err = x.target(cl); err == nil {
+			r.data, err = x.readFile(fi)
+		}
 		r.has = err == nil
 	case "list":
 		var names []string
@@ -379,6 +403,8 @@ func (x *exec) do(t, i int, cl call) {
 		r.res = strings.Join(names, ",")
 	case "rootflush":
 		err = x.rt.Flush()
+	case "dflush":
+		err = x.d.Flush()
 	case "fflush":
 		err = x.fi.Flush()
 	case "fsync":
@@ -540,7 +566,7 @@ func (x *exec) Check(res *vsched.Result) *eng.Violation {
 		s := starts[[2]int{e.thr, e.idx}]
 		if !e.has {
 			// a read that fails does not show the data. Path-based calls racing with Mv may legitimately miss the file.
-			if hasMv && e.thr >= 0 && e.op == "flushpath" {
+			if hasMv && e.thr >= 0 && x.sc.threads[e.thr][e.idx].path != "" {
 				continue
 			}
 			return eng.V("read-failed", e.op, fmt.Sprintf("%s failed: %s\n%s", e.op, e.err, logStr), "overlap", x.overlapping(e.thr, s, p))
@@ -592,10 +618,27 @@ func (x *exec) Check(res *vsched.Result) *eng.Violation {
 			if !known || lost == nil {
 				return eng.V("content-corrupt", e.op, fmt.Sprintf("%s observed %q: region %d holds bytes nobody could have written there at that time\n%s", e.op, e.data, r, logStr), "overlap", x.overlapping(e.thr, s, p))
 			}
+			// defect-class features: which kinds of calls of other threads overlapped the lost write (between its
+			// start and its acknowledgement)
+			ov := "," + x.overlapping(lost.thr, lost.start, lost.end) + ","
+			has := func(ops ...string) string {
+				for _, o := range ops {
+					if strings.Contains(ov, ","+o+",") {
+						return "true"
+					}
+				}
+				return "false"
+			}
 			return eng.V("acked-write-lost", e.op,
 				fmt.Sprintf("%s observed %q: region %d shows %q although write %d.%d (%s %q) was acknowledged (Flush/Close returned nil) before this observation started and after the observed data had been written\n%s",
 					e.op, e.data, r, got, lost.thr, lost.idx, lost.op, lost.data, logStr),
-				"write_op", lost.op, "overlap_with_write", x.overlapping(lost.thr, lost.start, lost.end), "after_write", x.overlapping(lost.thr, lost.end, s))
+				"write_sync", fmt.Sprint(lost.op != "writens"),
+				"file_meta_update_overlaps", has("setmode", "setmtime", "chmod", "touch"),
+				"mv_overlaps", has("mv"),
+				"dir_flush_overlaps", has("dflush"),
+				"dir_meta_update_overlaps", has("dchmod"),
+				"other_writer_overlaps", has("write", "writens", "wflush", "fflush"),
+				"overlapping_calls", strings.Trim(ov, ","))
 		}
 	}
 	return nil
@@ -609,7 +652,7 @@ func (x *exec) Classify(res *vsched.Result, v *eng.Violation) {
 	if v.Symptom != "deadlock" {
 		return
 	}
-	var l []string
+	var rl, wl, other []string
 	for _, b := range res.Blocked {
 		m := blockedRe.FindStringSubmatch(b)
 		if m == nil {
@@ -623,13 +666,33 @@ func (x *exec) Classify(res *vsched.Result, v *eng.Violation) {
 		if !ok {
 			continue // main waiting for the drivers
 		}
-		l = append(l, op+":"+m[2])
+		switch m[2] {
+		case "RWMutex.RLock":
+			rl = append(rl, op)
+		case "RWMutex.Lock":
+			wl = append(wl, op)
+		default:
+			other = append(other, op+":"+m[2])
+		}
 	}
-	sort.Strings(l)
+	sort.Strings(rl)
+	sort.Strings(wl)
+	sort.Strings(other)
 	if v.Features == nil {
 		v.Features = map[string]string{}
 	}
-	v.Features["waiters"] = strings.Join(l, ",")
+	// calls blocked in RWMutex.RLock / RWMutex.Lock / anything else when the deadlock was declared
+	v.Features["rlock_waiters"] = strings.Join(rl, ",")
+	v.Features["wlock_waiters"] = strings.Join(wl, ",")
+	v.Features["other_waiters"] = strings.Join(other, ",")
+	// File.Mode / File.ModTime are the only calls that take the same read lock twice (RLock, then GetNode -> RLock)
+	var re []string
+	for _, o := range rl {
+		if o == "mode" || o == "modtime" {
+			re = append(re, o)
+		}
+	}
+	v.Features["reentrant_reader_blocked"] = strings.Join(re, ",")
 	v.Detail += "\n" + x.logString()
 }
 
@@ -654,25 +717,32 @@ func scripts() []*script {
 		{name: "s1-mode-setmode", small: true, threads: [][]call{{c("mode")}, {cm("setmode", 0o644)}}},
 		{name: "s1-mode-write", small: true, threads: [][]call{{c("mode")}, {w("write", 0)}}},
 		{name: "s2-modtime-setmtime", small: true, threads: [][]call{{c("modtime")}, {ct("setmtime", 1)}}},
-		// S3: open-write-close || ForEachEntry on the parent || root flush
+		{name: "s2-modtime-touch-chmod", threads: [][]call{{c("modtime")}, {ct("touch", 1)}, {cm("chmod", 0o644)}}},
+		// S3: open-write-close || ForEachEntry on the parent || root flush / FlushPath
 		{name: "s3-write-list-rootflush", threads: [][]call{{w("write", 0)}, {c("list")}, {c("rootflush")}}},
-		{name: "s3-write-flushpath-pub", pub: true, threads: [][]call{{w("write", 0)}, {cp("flushpath", "/")}}},
+		{name: "s3-pwrite-list-flushpath-pub", pub: true, delta: -1, threads: [][]call{{wp("write", 0)}, {c("list")}, {cp("flushpath", "/")}}},
+		{name: "s3-write-flushpath-file-pub", pub: true, delta: -1, threads: [][]call{{w("write", 0)}, {cp("flushpath", "/d/f")}}},
 		// S4: descriptors
 		{name: "s4-read-write-fsync", threads: [][]call{{c("read")}, {w("write", -1)}, {c("fsync")}}},
-		{name: "s4-two-writers-disjoint", small: true, threads: [][]call{{w("write", 0), c("read")}, {w("write", 1), c("read")}}},
+		{name: "s4-two-writers-disjoint", threads: [][]call{{w("write", 0), c("read")}, {w("write", 1), c("read")}}},
+		{name: "s4-two-writers-disjoint-chunk4", chunk4: true, threads: [][]call{{wp("wflush", 0)}, {wp("write", 1)}}},
 		{name: "s4-wflush-read-write", threads: [][]call{{w("wflush", 0), c("read")}, {w("write", -1)}}},
 		{name: "s4-fflush-write-read", threads: [][]call{{c("fflush")}, {w("write", 1)}, {c("read")}}},
 		{name: "s4-writens-rootflush-read", threads: [][]call{{w("writens", 0)}, {c("rootflush")}, {c("read")}}},
+		{name: "s4-pwrite-pread-tree", tree: true, threads: [][]call{{wp("write", 0), wp("writens", 1)}, {cp("read", "/d/f"), cp("read", "/d/f")}}},
 		// S5: write+Flush || Mv || ListNames
-		{name: "s5-wflush-mv-names", threads: [][]call{{w("wflush", 0)}, {c("mv")}, {c("names")}}},
+		{name: "s5-pwflush-mv-names", threads: [][]call{{wp("wflush", 0)}, {c("mv")}, {c("names")}}},
+		{name: "s5-pwrite-mv", threads: [][]call{{wp("write", -1)}, {c("mv")}}},
 		// S6: path-based metadata calls
 		{name: "s6-chmod-touch-lookup", threads: [][]call{{cm("chmod", 0o644)}, {ct("touch", 0)}, {c("lookup")}}},
 		// S7: metadata update || data write on the same file (setNodeData builds the new node from a stale one)
 		{name: "s7-setmode-write", small: true, threads: [][]call{{cm("setmode", 0o644)}, {w("write", 0)}}},
 		{name: "s7-setmode-write-tree", small: true, tree: true, threads: [][]call{{cm("setmode", 0o644)}, {w("write", 0)}}},
-		{name: "s7-touch-wflush-chunk4", small: true, chunk4: true, threads: [][]call{{ct("touch", 1)}, {w("wflush", 1)}}},
-		// S8: metadata update of the parent directory || write below it
+		{name: "s7-touch-wflush-chunk4", chunk4: true, threads: [][]call{{ct("touch", 1)}, {w("wflush", 1)}}},
+		// S8: parent directory: metadata update / flush (drops the directory's entry cache) || write below it
 		{name: "s8-dchmod-write", small: true, threads: [][]call{{cm("dchmod", 0o755)}, {w("write", 0)}}},
+		{name: "s8-dflush-pwrite-read", threads: [][]call{{c("dflush")}, {wp("write", 0)}, {cp("read", "/d/f")}}},
+		{name: "s8-dflush-pwritens", threads: [][]call{{c("dflush")}, {wp("writens", 0), cp("read", "/d/f")}}},
 	}
 }
 
